@@ -42,6 +42,8 @@ func rulesC02(c *Ctx) {
 	ruleComparatorDirectionSet(c, "C02.CMPDIR", "boltz", "Compare")
 	ruleComparatorDecoder(c, "C02.CMPTYPE", "boltz", "Compare")
 	ruleScannerSortFields(c, "C02.SCANSORT")
+	// the id scan honours the direction the first sort field asks for
+	ruleCursorDirection(c, c.cursorTypes(), "C02.CURSORDIR", "C02.DIRPARAM")
 	// candidate ids handed in through a union cursor come once each, in the direction asked for
 	c.As("C14.UNION", "C02.UNION", func() { ruleC14Union(c) })
 	c.Floor("C02.CMP", 5)
